@@ -114,7 +114,10 @@ LEVEL_TEXT = ("Machine-checked theorems (Coq 8.16, closed under the global conte
               "key order of mkeymap.rs append_keys (C07_arg_keys_table: Cmd.arg_keys is the table's function for every "
               "argument), the chain case-file flag -> Arg setter -> ArgSettings variant -> model field "
               "(C07_arg_flags_table), and the copies of takes_values in the C15/C16 models "
-              "(C07_other_models_takes_values); for the configuration gate the model is STRICTER than the source "
+              "(C07_other_models_takes_values); Gen/GateSites.v: the 63 assert!/panic! sites of debug_asserts.rs in source order "
+              "are exactly the classified ones (C07_gate_sites_covered: a check clap adds to its configuration gate breaks "
+              "the lemma), assert_arg is its core && the interpreted checker! table of assert_arg_flags "
+              "(C07_assert_arg_flags_table), assert_app implies the assert_app_flags table (C07_app_flags_table); for the configuration gate the model is STRICTER than the source "
               "for SetTrue/SetFalse (source: num_args(0..=1) and any value parser allowed): C07_action_gate_table states the "
               "exact relation, C07_action_gate_table_refuted is the witness that equality fails, C07_gate_implies_source "
               "that whatever the model's gate accepts passes the source's assertions.  A source edit that changes one of "
